@@ -167,8 +167,15 @@ type Device struct {
 	bits     [2]map[uint16]bool   // coils, discrete overrides
 	// ASCII mode: a fraction of registers hold printable characters / NULs
 	ASCIIEvery int
-	ReadOnly   bool // validate and echo writes but do not store them
+	// Special mode: every SpecialEvery-th register (by hash) holds one of the values at which representations change or
+	// which resemble protocol bytes (all zeros / all ones, sign bits, NaN / Inf / negative zero halves, CR LF, bytes >= 0x80,
+	// exception-flag and function-code look-alikes)
+	SpecialEvery int
+	ReadOnly     bool // validate and echo writes but do not store them
 }
+
+var specialRegs = []uint16{0x0000, 0xFFFF, 0x8000, 0x7FFF, 0x00FF, 0xFF00, 0x0001, 0x0100, 0x7FC0, 0x7FF8, 0xFFC0, 0x7F80, 0xFF80, 0x7FF0, 0xFFF0,
+	0x0A0D, 0x0D0A, 0x8080, 0xB0C3, 0x2000, 0x0020, 0x8300, 0x0083, 0x1100, 0x0300, 0x0003, 0x00E9, 0xC3A9}
 
 func NewDevice(seed uint64) *Device {
 	d := &Device{Seed: seed, ServerID: []byte{byte(seed), byte(seed >> 8)}, Status: 0xFF}
@@ -182,6 +189,9 @@ func (d *Device) Reg(tab int, a uint16) uint16 {
 		return v
 	}
 	h := Mix(d.Seed, uint64(tab), uint64(a))
+	if d.SpecialEvery > 0 && int(h>>44)%d.SpecialEvery == 0 {
+		return specialRegs[int(h>>20)%len(specialRegs)]
+	}
 	if d.ASCIIEvery > 0 && int(h>>40)%d.ASCIIEvery == 0 {
 		// printable pair, sometimes with a NUL
 		hi := byte(0x41 + (h>>8)%26)
